@@ -45,6 +45,19 @@ Theorem C15_nested_partial_isolated_old_refuted : ~ only_explicit_args_old.
 Proof. exact only_explicit_args_old_refuted. Qed.
 Print Assumptions C15_nested_partial_isolated_old_refuted.
 
+(* render ... for: the items are rendered independently — what the tag prints is the concatenation of rendering the
+   partial for each item in a FRESH copy of the context, so nothing assigned or counted for one item is seen by the next *)
+Theorem C15_render_for_items_independent : forall render1 key na items c0,
+  obs (render_loop render1 key na items c0) =
+  each_item (fun itm i => render1 (set_gl_head c0 (dict_set key itm (dict_set s_forloop (forloop_drop i (zlen items)) na)))) items 0%Z.
+Proof. exact render_for_items_independent. Qed.
+Print Assumptions C15_render_for_items_independent.
+
+(* witness of the repaired defect: with ONE copied context for all items the second item saw the first one's variables *)
+Theorem C15_render_for_items_independent_old_refuted : ~ render_for_independent_old.
+Proof. exact render_for_independent_old_refuted. Qed.
+Print Assumptions C15_render_for_items_independent_old_refuted.
+
 (* include is disabled in a rendered partial: once the nodes before it have completed, the render tag raises
    DisabledTagError (the include may sit behind any prefix; inside blocks the disabled tags are unchanged, next theorem) *)
 Theorem C15_no_include_in_render : forall f E name args pname pvar pargs pre post c na c1 o1,
@@ -119,6 +132,12 @@ Proof. vm_compute. reflexivity. Qed.
 Example C15_include_disabled_example :
   run_case (Case MStrict UDefault [(slit "p", [NText (slit "a"); NFor (slit "i") (IRange 1 2) [NInclude (slit "r") None []] []]); (slit "r", [])]
               [] [] [] [] [NRender (slit "p") None []]) = Err EDisabledTag.
+Proof. vm_compute. reflexivity. Qed.
+
+Example C15_render_for_example :
+  run_case (Case MStrict UDefault [(slit "p", [NText (slit "["); ex_out "seen"; NText (slit "]"); ex_assign "seen" "s"; NIncr (slit "n")])]
+              [(slit "l", VList [VInt 1; VInt 2])] [] [] [] [NRender (slit "p") (Some (Path (slit "l") [], true, None)) []])
+  = Ok (slit "[]0[]0").
 Proof. vm_compute. reflexivity. Qed.
 
 (* two callers satisfying the hypotheses of C15_render_isolated that differ in scopes, locals and counters *)
